@@ -448,7 +448,7 @@ def serialize_nested(rng, root: ET.Element, tns, pfx, rate: float = 0.45) -> tup
             return p
         return rng.choice(cands)
 
-    def emit(e, scope, level, ndecl):
+    def emit(e, scope, level, ndecl, force=False):
         top = level == 0
         decl: dict = {}
         if top:
@@ -458,7 +458,7 @@ def serialize_nested(rng, root: ET.Element, tns, pfx, rate: float = 0.45) -> tup
                 else:
                     decl[''] = tns
                     decl['ta'] = tns
-        elif rng.random() < rate:
+        elif force or rng.random() < rate:
             acts = [a for a in NS_ACTIONS if tns or a in ('default-off', 'unrelated')]
             for _ in range(rng.choice([1, 1, 2])):
                 act = rng.choice(acts)
@@ -516,8 +516,11 @@ def serialize_nested(rng, root: ET.Element, tns, pfx, rate: float = 0.45) -> tup
             parts.append('>')
             if e.text:
                 parts.append(esc(e.text))
-            for c in e:
-                parts.append(emit(c, inner, level + 1, ndecl + (1 if decl and not top else 0)))
+            for i, c in enumerate(e):
+                # stack discipline: below an element that re-binds something, often let the last child declare
+                # too, so that the next element outside leaves both declaring elements in one step
+                below = rebinds and not top and i == len(e) - 1 and rng.random() < 0.6
+                parts.append(emit(c, inner, level + 1, ndecl + (1 if decl and not top else 0), below))
                 if c.tail:
                     parts.append(esc(c.tail))
             parts.append(f'</{tag}>')
